@@ -392,6 +392,17 @@ func (p *c16) checkErrors(r *core.CaseResult) {
 		{"dollar-zero", "SELECT $0 AS v FROM dual", []any{"a"}},
 		{"dollar-zero-no-args", "SELECT $0 AS v FROM dual", nil},
 		{"huge-index", "SELECT $99999999999999999999 AS v FROM dual", []any{"a"}},
+		// placeholder numbers around the ends of the 32- and 64-bit ranges (a counter that wraps)
+		{"index-2^31", "SELECT $2147483648 AS v FROM dual", []any{"a"}},
+		{"index-2^32", "SELECT $4294967296 AS v FROM dual", []any{"a"}},
+		{"index-2^32+1", "SELECT $4294967297 AS v FROM dual", []any{"a"}},
+		{"index-2^63-1", "SELECT $9223372036854775807 AS v FROM dual", []any{"a"}},
+		{"index-2^63", "SELECT $9223372036854775808 AS v FROM dual", []any{"a"}},
+		{"index-2^63+1", "SELECT $9223372036854775809 AS v FROM dual", []any{"a"}},
+		{"index-2^64-1", "SELECT $18446744073709551615 AS v FROM dual", []any{"a"}},
+		{"index-2^64", "SELECT $18446744073709551616 AS v FROM dual", []any{"a"}},
+		{"index-2^64+1", "SELECT $18446744073709551617 AS v FROM dual", []any{"a"}},
+		{"index-2^64+1-two-args", "SELECT $18446744073709551617 AS v, $2 AS w FROM dual", []any{"a", "b"}},
 		{"unsupported-type", "SELECT $1 AS v FROM dual", []any{struct{}{}}},
 		{"repeated-placeholder-with-surplus-argument", "SELECT $1 AS a, $1 AS b FROM dual", []any{"first", "second"}},
 		{"repeated-placeholder-with-gap", "SELECT $1 AS a, $3 AS b, $1 AS c FROM dual", []any{"x", "y", "z"}},
